@@ -2,8 +2,8 @@
 from .. import gen_scripts as G, scriptcheck as S
 
 NAMESPACE = "Rbp.Props.C06"
-REQUIRED = ["tokenise_roundtrip", "coin_table_published"]
-LEAN_FILES = ["Rbp/Model/Script.lean", "Rbp/Spec/PushRules.lean", "Rbp/Model/Addr.lean", "Rbp/Model/Lossy.lean"]
+REQUIRED = ["tokenise_roundtrip", "tokens_eq_spec", "type_iff_template", "address_formula", "eval_total", "coin_table_published"]
+LEAN_FILES = ["Rbp/Model/Script.lean", "Rbp/Spec/PushRules.lean", "Rbp/Model/Addr.lean", "Rbp/Model/Lossy.lean", "Rbp/Proofs/Tokens.lean", "Rbp/Proofs/ScriptMachine.lean", "Rbp/Model/ScriptMachine.lean"]
 RULE = ("script verdicts (type tag, address) of the real eval_from_bytes vs the Lean model on the six fork version bytes; cases = always-on boundary "
         "families (templates and their one-byte neighbourhoods, every push form in every slot, zero-length/truncated pushes, NOP insertion, m-of-n grid, "
         "256 leading opcodes) + seeded structure-directed bulk with 35% one-step mutations; a case is non-trivial when the script is non-empty and the model "
